@@ -436,7 +436,9 @@ pub fn run(tier: Tier) -> i32 {
     explore(m, &mut rep, "c10", "symbolic/by-name");
     // (ii)
     let qt = num_table();
-    let pool_q = read_pool(&["x", "y", "x+y", "2*x", "z*x", "0", "1", "1-1", "3-2", "x-x"], &qt, LitKind::Number);
+    // incl. operands that merely look neutral (a sign over a parenthesised 0 / 1) or are neutral
+    // without being the literal
+    let pool_q = read_pool(&["x", "y", "x+y", "2*x", "z*x", "0", "1", "1-1", "3-2", "x-x", "-((1))", "-(-((1)))", "-((0))+1"], &qt, LitKind::Number);
     let m = QModel { pool: Arc::new(pool_q), table: qt, max_len: if tier.thorough() { 4 } else { 3 } };
     explore(m, &mut rep, "c10", "rationals/shortcuts");
     rep.finish()
